@@ -212,3 +212,42 @@ Proof.
       destruct s1 as [v1 it1]. cbn [fst snd] in *. subst it1. exact (IH v1 it Hd1 Hr1 Hsec Hrest).
     + exact (IH v it Hd Hr Hsec Hrest).
 Qed.
+
+(** ** From a freshly parsed response: the first insertion or recompute decompresses, then any history with cursor operations *)
+Lemma first_hop_dinv : forall p v it o s1, bytes_ok p -> parse p = Ok v -> is_response p ->
+  (o = H2Recompute \/ exists sec rx, o = H2Insert sec rx) -> hop2_ok o ->
+  run_hop2 o (v, it) = (s1, Ok tt) -> dinv (fst s1) /\ snd s1 = it /\ is_response (pp_packet (fst s1)).
+Proof.
+  intros p v it o s1 Hb Hp Hr Hfirst Hok E.
+  destruct (prologue_dinv p v it Hb Hp) as (dv & Hpro & Hd & Hrd).
+  destruct Hfirst as [->|(sec & rx & ->)]; cbn [run_hop2] in E.
+  - destruct (recompute_fresh p v it Hb Hp) as (q & v' & Hu & Hp' & Hpk' & Hrc). rewrite Hrc in E. inversion E; subst s1. cbn [fst snd].
+    destruct (insert_prologue_fresh p v it Hb Hp) as (q2 & v2 & Hu2 & Hp2 & _ & Hpro2).
+    rewrite Hu in Hu2. inversion Hu2; subst q2. rewrite Hp' in Hp2. inversion Hp2; subst v2.
+    rewrite Hpro in Hpro2. inversion Hpro2; subst dv. auto.
+  - assert (E' : m_insert_rr sec (plain_record rx) (dv, it) = (s1, Ok tt)).
+    { unfold m_insert_rr in E |- *. unfold cbind in E |- *. rewrite Hpro in E.
+      unfold insert_prologue, cbind, getv, cret. cbn [fst snd]. rewrite (di_mc _ Hd). exact E. }
+    destruct Hok as [Hrx Hsec].
+    destruct (insert_keeps_dinv dv it sec rx s1 Hd Hrx Hsec (fun _ => Hrd Hr) E') as (Hd1 & Hit1 & Hr1 & _). auto.
+Qed.
+
+Theorem fresh_history3_dinv : forall p v it o ops s1 s', bytes_ok p -> parse p = Ok v -> is_response p -> it_section it <> SQuestion ->
+  (o = H2Recompute \/ exists sec rx, o = H2Insert sec rx) -> hop2_ok o ->
+  run_hop2 o (v, it) = (s1, Ok tt) -> ok_along ops s1 -> run_hops3 ops s1 = (s', Ok tt) ->
+  dinv (fst s') /\ snd s' = it /\ is_response (pp_packet (fst s')).
+Proof.
+  intros p v it o ops s1 s' Hb Hp Hr Hsec Hfirst Hok E Hal H.
+  destruct (first_hop_dinv p v it o s1 Hb Hp Hr Hfirst Hok E) as (Hd1 & Hit1 & Hr1).
+  destruct s1 as [v1 it1]. cbn [fst snd] in *. subst it1. exact (hops3_keep_dinv ops v1 it s' Hd1 Hr1 Hsec Hal H).
+Qed.
+
+Theorem fresh_history3_total : forall p v it o ops s1, bytes_ok p -> parse p = Ok v -> is_response p -> it_section it <> SQuestion ->
+  (o = H2Recompute \/ exists sec rx, o = H2Insert sec rx) -> hop2_ok o ->
+  run_hop2 o (v, it) = (s1, Ok tt) -> ok_along_tol ops s1 ->
+  exists s', run_hops3_tol ops s1 = (s', Ok tt) /\ dinv (fst s') /\ snd s' = it /\ is_response (pp_packet (fst s')).
+Proof.
+  intros p v it o ops s1 Hb Hp Hr Hsec Hfirst Hok E Hal.
+  destruct (first_hop_dinv p v it o s1 Hb Hp Hr Hfirst Hok E) as (Hd1 & Hit1 & Hr1).
+  destruct s1 as [v1 it1]. cbn [fst snd] in *. subst it1. exact (hops3_tol_total ops v1 it Hd1 Hr1 Hsec Hal).
+Qed.
